@@ -276,7 +276,17 @@ class RZILTransformer(Transformer):
             return self.add_op(
                 Assignment("set_return_val", AssignmentType.ASSIGN, ret_val, src)
             )
+        if isinstance(items[0], Token):
+            # goto, continue, break. They would be dropped silently otherwise.
+            raise NotImplementedError(f"Jump statement '{items[0]}' is not supported.")
         return items  # Pass them upwards
+
+    def expr(self, items):
+        # "a = 1, b = 2". The single assignments would never be added to a sequence.
+        raise NotImplementedError("Comma expressions are not supported.")
+
+    def labeled_stmt(self, items):
+        raise NotImplementedError("Labeled statements are not supported.")
 
     def relational_expr(self, items):
         self.ext.set_token_meta_data("relational_expr")
